@@ -820,6 +820,148 @@ theorem takeAxis_range [Inhabited α] {a : NDArr α} (ha : a.WF) {ax : Nat}
 theorem wf_map {β : Type} (f : α → β) {a : NDArr α} (ha : a.WF) : (a.map f).WF := by
   simpa [WF, map] using ha
 
+/-! ### folds of `concat` (what a loop of `append`s builds) and Python slice bounds -/
+
+theorem length_shape_concat [Inhabited α] (ax : Nat) (a b : NDArr α) :
+    (concat ax a b).shape.length = a.shape.length := by
+  rw [shape_concat, List.length_set]
+
+theorem getD_shape_concat [Inhabited α] {ax : Nat} (a b : NDArr α) (hax : ax < a.shape.length) :
+    (concat ax a b).shape.getD ax 0 = a.shape.getD ax 0 + b.shape.getD ax 0 := by
+  rw [shape_concat, getD_set_self hax]
+
+/-- a slice inside the accumulator is not affected by what is concatenated behind it -/
+theorem slice_foldl_left [Inhabited α] (xs : List (NDArr α)) {acc : NDArr α} {ax lo hi : Nat}
+    (hax : ax < acc.shape.length) (hhi : hi ≤ acc.shape.getD ax 0) :
+    sliceAxis ax lo hi (xs.foldl (concat ax) acc) = sliceAxis ax lo hi acc := by
+  induction xs generalizing acc with
+  | nil => rfl
+  | cons x xs ih =>
+    rw [List.foldl_cons, ih (by rw [length_shape_concat]; exact hax)
+      (by rw [getD_shape_concat _ _ hax]; omega)]
+    exact slice_concat_left x hax hhi
+
+/-- the slice right behind the accumulator returns the next concatenated array -/
+theorem slice_foldl_next [Inhabited α] {x : NDArr α} (xs : List (NDArr α)) {acc : NDArr α}
+    {ax m : Nat} (hx : x.WF) (hax : ax < acc.shape.length) (hb : x.shape = acc.shape.set ax m) :
+    sliceAxis ax (acc.shape.getD ax 0) (acc.shape.getD ax 0 + m) ((x :: xs).foldl (concat ax) acc)
+      = x := by
+  have hxm : x.shape.getD ax 0 = m := by rw [hb, getD_set_self hax]
+  rw [List.foldl_cons, slice_foldl_left xs (by rw [length_shape_concat]; exact hax)
+    (by rw [getD_shape_concat _ _ hax, hxm])]
+  exact slice_concat_snd hx hax hb
+
+/-- `moveaxis` of the concatenation axis distributes over a whole fold of `concat` -/
+theorem moveaxis_foldl_concat [Inhabited α] (xs : List (NDArr α)) {acc : NDArr α} {ax dst : Nat}
+    (hax : ax < acc.shape.length) (hd : dst < acc.shape.length)
+    (hxs : ∀ x ∈ xs, ∃ m, x.shape = acc.shape.set ax m) :
+    (xs.foldl (concat ax) acc).moveaxis ax dst
+      = (xs.map (·.moveaxis ax dst)).foldl (concat dst) (acc.moveaxis ax dst) := by
+  induction xs generalizing acc with
+  | nil => rfl
+  | cons x xs ih =>
+    obtain ⟨m, hm⟩ := hxs x (List.mem_cons_self)
+    rw [List.foldl_cons, List.map_cons, List.foldl_cons, ← moveaxis_concat acc x hax hd hm]
+    apply ih (by rw [length_shape_concat]; exact hax) (by rw [length_shape_concat]; exact hd)
+    intro y hy
+    obtain ⟨m', hm'⟩ := hxs y (List.mem_cons_of_mem _ hy)
+    exact ⟨m', by rw [shape_concat, List.set_set]; exact hm'⟩
+
+/-- the extent of a fold of `concat` along its axis is the sum of the extents -/
+theorem getD_shape_foldl_concat [Inhabited α] (xs : List (NDArr α)) {acc : NDArr α} {ax : Nat}
+    (hax : ax < acc.shape.length) :
+    (xs.foldl (concat ax) acc).shape.getD ax 0
+      = acc.shape.getD ax 0 + (xs.map fun x => x.shape.getD ax 0).sum := by
+  induction xs generalizing acc with
+  | nil => simp
+  | cons x xs ih =>
+    rw [List.foldl_cons, ih (by rw [length_shape_concat]; exact hax), getD_shape_concat _ _ hax]
+    simp [Nat.add_assoc]
+
+/-- all other extents of a fold of `concat` are those of the accumulator -/
+theorem shape_foldl_concat [Inhabited α] (xs : List (NDArr α)) {acc : NDArr α} {ax : Nat}
+    (hax : ax < acc.shape.length) :
+    (xs.foldl (concat ax) acc).shape
+      = acc.shape.set ax (acc.shape.getD ax 0 + (xs.map fun x => x.shape.getD ax 0).sum) := by
+  induction xs generalizing acc with
+  | nil =>
+    rw [List.foldl_nil, List.map_nil, List.sum_nil, Nat.add_zero, set_getD_self _ _ _ hax]
+  | cons x xs ih =>
+    rw [List.foldl_cons, ih (by rw [length_shape_concat]; exact hax), getD_shape_concat _ _ hax,
+      shape_concat, List.set_set]
+    simp [Nat.add_assoc]
+
+theorem wf_foldl_concat [Inhabited α] (xs : List (NDArr α)) {acc : NDArr α} {ax : Nat}
+    (hacc : acc.WF) : (xs.foldl (concat ax) acc).WF := by
+  induction xs generalizing acc with
+  | nil => exact hacc
+  | cons x xs ih => exact ih (wf_concat _ _ _)
+
+end NDArr
+
+/-- Python slice bounds that are already inside `[0, n]` are kept -/
+theorem pySlice_of_le {n lo hi : Nat} (h1 : lo ≤ hi) (h2 : hi ≤ n) :
+    pySlice n (lo : Int) (hi : Int) = (lo, hi) := by
+  unfold pySlice
+  have a1 : ¬ ((lo : Int) < 0) := by omega
+  have a2 : ¬ ((hi : Int) < 0) := by omega
+  have a3 : ¬ ((lo : Int) > (n : Int)) := by omega
+  have a4 : ¬ ((hi : Int) > (n : Int)) := by omega
+  simp only [a1, a2, a3, a4, if_false, Int.toNat_natCast]
+  have : ¬ hi < lo := by omega
+  simp [this]
+
+/-- the clamping helper inside `pySlice`, for a negative bound `-m` with `m ≤ n` -/
+private theorem clamp_neg {n m : Nat} (hm : 0 < m) (hmn : m ≤ n) :
+    (let y : Int := if (-(m : Int)) < 0 then (-(m : Int)) + n else (-(m : Int))
+     if y < 0 then 0 else if y > n then n else y.toNat) = n - m := by
+  have a1 : (-(m : Int)) < 0 := by omega
+  have a2 : ¬ ((-(m : Int)) + (n : Int) < 0) := by omega
+  have a3 : ¬ ((-(m : Int)) + (n : Int) > (n : Int)) := by omega
+  simp only [a1, if_true, a2, a3, if_false]
+  omega
+
+private theorem clamp_nat {n x : Nat} (hx : x ≤ n) :
+    (let y : Int := if (x : Int) < 0 then (x : Int) + n else (x : Int)
+     if y < 0 then 0 else if y > n then n else y.toNat) = x := by
+  have a1 : ¬ ((x : Int) < 0) := by omega
+  have a3 : ¬ ((x : Int) > (n : Int)) := by omega
+  simp only [a1, if_false, a3]
+  omega
+
+/-- `slice(0, -m)` on an axis of extent `n ≥ m > 0` is `[0, n - m)` -/
+theorem pySlice_zero_neg {n m : Nat} (hm : 0 < m) (hmn : m ≤ n) :
+    pySlice n 0 (-(m : Int)) = (0, n - m) := by
+  have h0 := clamp_nat (n := n) (x := 0) (Nat.zero_le _)
+  have h1 := clamp_neg hm hmn
+  simp only [Nat.cast_zero] at h0
+  unfold pySlice
+  simp only [h0, h1]
+  simp
+
+/-- `slice(-m, n)` on an axis of extent `n ≥ m > 0` is `[n - m, n)` -/
+theorem pySlice_neg_full {n m : Nat} (hm : 0 < m) (hmn : m ≤ n) :
+    pySlice n (-(m : Int)) (n : Int) = (n - m, n) := by
+  have h0 := clamp_nat (n := n) (x := n) (Nat.le_refl _)
+  have h1 := clamp_neg hm hmn
+  unfold pySlice
+  simp only [h0, h1]
+  have : ¬ n < n - m := by omega
+  simp [this]
+
+/-- a negative axis `-(1 + j)` of an array of rank `r > j` is the axis `r - 1 - j` -/
+theorem normAxis_neg {r j : Nat} (h : j < r) : normAxis r (-(1 + (j : Int))) = r - 1 - j := by
+  unfold normAxis
+  have : (-(1 + (j : Int))) < 0 := by omega
+  simp only [this, if_true]
+  omega
+
+theorem normAxis_neg_one {r : Nat} (h : 0 < r) : normAxis r (-1) = r - 1 := by
+  have := normAxis_neg (r := r) (j := 0) h
+  simpa using this
+
+namespace NDArr
+variable {α : Type}
 end NDArr
 
 end GinjaxVerif.ND
